@@ -108,7 +108,21 @@ def run_component_client(pack):
         raise _Stop()
 
     CombinedDataHandler.get_units = spy
+    mp_prev = {"fit_margin_outlier_model": False, "fit_turnout_outlier_model": False}
     try:
+        if est == "turnout":
+            # the caller's earlier request of the same poll: the margin of the same feed, handed the SAME feed frame object
+            # (a caller that asks for the margin first and for the turnout next).  Which units feed the turnout model
+            # follows from the turnout request alone - nothing the earlier run left in the caller's frame may count
+            # (ClientHistory.tla, switch FeedCopied; seeded change C09_J)
+            try:
+                ModelClient().get_estimates(
+                    cur, synth.EID, "G", ["margin"], [0.9], sc0["thr"], "precinct", raw_config=synth.config("G", states), preprocessed_data=pre.copy(),
+                    aggregates=["postal_code", "unit"], save_output=[], handle_unreporting=sc0["policy"], pi_method="nonparametric", model_parameters=mp_prev,
+                )
+            except _Stop:
+                pass
+            got.clear()
         ModelClient().get_estimates(
             cur, synth.EID, "G", [est], [0.9], sc0["thr"], "precinct", raw_config=synth.config("G", states), preprocessed_data=pre,
             aggregates=list(sc0["levels"]) + ["unit"], save_output=[], handle_unreporting=sc0["policy"], pi_method="nonparametric",
